@@ -82,9 +82,12 @@ func ctKinds() []ctKind {
 		for _, p := range params {
 			out = append(out, ctKind{Header: []string{m + p}, Media: m, Exact: true})
 		}
+		// media types are case-insensitive by definition (RFC 9110 8.3.1): "Application/JSON" IS the
+		// media type application/json, with or without parameters
 		up := strings.ToUpper(m[:1]) + m[1:]
-		out = append(out, ctKind{Header: []string{up}, Media: m})
-		out = append(out, ctKind{Header: []string{strings.ToUpper(m) + "; charset=utf-8"}, Media: m})
+		out = append(out, ctKind{Header: []string{up}, Media: m, Exact: true})
+		out = append(out, ctKind{Header: []string{strings.ToUpper(m)}, Media: m, Exact: true})
+		out = append(out, ctKind{Header: []string{strings.ToUpper(m) + "; charset=utf-8"}, Media: m, Exact: true})
 		out = append(out, ctKind{Header: []string{" " + m + " "}, Media: m})
 	}
 	for _, bad := range []string{"garbage", "a/b/c", "text/plain;", "text/plain; =x", "text/plain; charset", "/json", "application/", ";", "text/plain; charset=utf-8; charset=latin1", "*/*", "text/*"} {
